@@ -412,6 +412,8 @@ fn single_player_iter<'a, const FIRST: bool>(
     }
     // update all infosets
     work.payoffs.clear();
+    // NOTE leftover frontier nodes belong to this pass' sampled tree
+    work.work.clear();
     chance_infosets
         .iter_mut()
         .for_each(|info| info.get_mut().unwrap().advance());
